@@ -15,7 +15,7 @@ uint8_t g_cval; char* g_vsv_buf; size_t g_vsv_cap; size_t g_it_next, g_it_prefix
 #endif
 #define IN_GHOSTS size_t in_src_len, in_vk; uint8_t in_sval; int in_has_nl; SMALL; \
   g_src_len = in_src_len; g_pos = 0; g_vk = in_vk; g_sval = in_sval; g_has_nl = in_has_nl; g_wpos = 0; g_wval = 0; \
-  g_eof_seen = 0; g_err_seen = 0; g_chunk = 0; g_overrun = 0; g_fg_buf = 0; g_fg_len = 0; g_cval = 0; g_it_next = 0; g_it_prefix = 0; verif_exc = 0
+  g_eof_seen = 0; g_err_seen = 0; g_chunk = 0; g_overrun = 0; g_fg_buf = 0; g_fg_len = 0; g_cval = 0; g_it_next = 0; g_it_prefix = 0; g_stream_fd_taken = 0; verif_exc = 0
 
 void h_read_all_fd(void) { IN_GHOSTS; int in_fd; vstr* r; phosg_read_all_fd(r, in_fd); VERIF_REACH(); }
 void h_read_all_file(void) { IN_GHOSTS; C14_FILE* f; vstr* r; phosg_read_all_file(r, f); VERIF_REACH(); }
